@@ -19,7 +19,7 @@ CONSTANT Focus      \* which property's observables are compared: "C02", "C03", 
 Traces == ndJsonDeserialize(IOEnv.TRACES)
 
 VARIABLES tid, l
-tvars == <<rows, tail, descr, readme, meta, mode, mmode, hlen, pc, ref, refmeta, out, ret, gone, tid, l>>
+tvars == <<rows, tail, descr, readme, meta, mode, mmode, hlen, cx, pc, ref, refmeta, out, ret, gone, tid, l>>
 
 Ev == Traces[tid].events
 MetaOf(m) == IF m.k = "ok" THEN MOk(m.d) ELSE [k |-> m.k]
@@ -32,7 +32,7 @@ TraceInit ==
      /\ rows = s.rows /\ tail = 0 /\ descr = DOk(Len(s.rows)) /\ ref = s.rows /\ hlen = Len(s.rows)
      /\ meta = MetaOf(s.meta) /\ refmeta = (IF s.meta.k = "ok" THEN s.meta.d ELSE NoMeta)
      /\ readme = ROk(Len(s.rows), s.meta.k = "ok") /\ mode = s.mode /\ mmode = s.mode
-  /\ pc = Idle /\ out = "ok" /\ ret = 0 /\ gone = FALSE
+  /\ pc = Idle /\ out = "ok" /\ ret = 0 /\ gone = FALSE /\ cx = NoCtx
 
 CallOf(e) ==
   CASE e.op = "IA_Call" -> IA_Call(e.cs, e.f, e.via)
@@ -44,6 +44,8 @@ CallOf(e) ==
     [] e.op = "SetMetaMode" -> SetMetaMode(e.m)
     [] e.op = "Delete" -> Delete
     [] e.op = "M_Call" -> M_Call(e.kd, e.key, e.v)
+    [] e.op = "EnterCtx" -> EnterCtx(e.m)
+    [] e.op = "ExitCtx" -> ExitCtx
 
 Internal == \/ IA_Checks \/ IA_EmptyNext \/ IA_EmptyWrite \/ IA_EmptyRecover
             \/ IA_Next \/ IA_Write \/ IA_RecStart \/ IA_RecTruncate \/ IA_Done
